@@ -173,8 +173,7 @@ Proof.
   - exists st, []. cbn. repeat split; try lia; constructor.
   - cbn [rnd_run]. unfold rnd_call.
     assert (Hne : (d_rem st =? 0) = false) by lia. rewrite Hne.
-    replace (d_rate st <? 0) with false by lia. rewrite andb_false_r.
-    set (direct := (d_rem st =? 1) || (d_rate st =? 0)).
+    set (direct := (d_rem st =? 1) || (d_rate st <=? 0)).
     set (cur := if direct then d_rate st
                 else if d_rate st <? rand (d_rands st) then d_rate st else rand (d_rands st)).
     assert (Hcur : 0 <= cur <= d_rate st).
